@@ -315,6 +315,9 @@ fn spec_vs_impl(cx: &mut Ctx, stream: &str, base: Option<(&str, &Url)>, input: &
     } else if let Some(k) = known_c01(base.map(|b| b.1), input) {
         cx.rep.evaluations += 1;
         cx.rep.bump(&format!("known-divergence:{}", k));
+        if k.starts_with("K1") && std::env::var("VERIF_C01_SHOW_K1").is_ok() {
+            eprintln!("K1DIV input={:?} base={:?}\n   std=<{}>\n   imp=<{}>", input, base.map(|b| b.0), spec, imp);
+        }
     } else {
         cx.rep.case(stream, &human, &spec, &imp, true, "std:DIVERGES");
         if cx.search && cx.rep.failures.len() < 20 {
